@@ -66,6 +66,21 @@ func CmpUint64Float64(u uint64, f float64) int {
 	return 0
 }
 
+// Reports whether i and f are the same number. NaN is equal to nothing.
+func EqInt64Float64(i int64, f float64) bool {
+	return f == f && CmpInt64Float64(i, f) == 0
+}
+
+// Reports whether u and f are the same number. NaN is equal to nothing.
+func EqUint64Float64(u uint64, f float64) bool {
+	return f == f && CmpUint64Float64(u, f) == 0
+}
+
+// Reports whether i and f are the same number. NaN is equal to nothing.
+func EqBigIntFloat64(i *big.Int, f float64) bool {
+	return f == f && CmpBigIntFloat64(i, f) == 0
+}
+
 // Compares i with f exactly. f must not be NaN.
 func CmpBigIntFloat64(i *big.Int, f float64) int {
 	if math.IsInf(f, 1) {
